@@ -48,6 +48,27 @@ def expected (isNull isList : Bool) : TRef → Option TRef
 def litIsNull : Lit → Bool | .null => true | _ => false
 def litIsList : Lit → Bool | .list _ => true | _ => false
 
+/-- exactly one entry, and its value is not null -/
+def oneNonNullEntry (fs : List (Str × Lit)) : Bool :=
+  match fs with
+  | [e] => !litIsNull e.2
+  | _ => false
+
+/-- Input coercion of an object literal `fs` by an input object type (§3.10), given per entry
+whether its value coerces to a type (`byField`). -/
+def objectCoerces (fields : List InputValue) (oneOf : Bool) (fs : List (Str × Lit))
+    (byField : List (Str × (TRef → Bool))) : Bool :=
+  -- every entry names a defined field
+  fs.all (fun e => fields.any (fun fd => fd.name = e.1))
+  -- every defined field: the provided value coerces to its type; an omitted field must have
+  -- a default or be nullable
+  && fields.all (fun fd =>
+      match entryOf byField fd.name with
+      | some ok => ok fd.type
+      | none => fd.default.isSome || fd.legacyDefault || !fd.type.isNonNull)
+  -- OneOf: exactly one entry, and it is not null
+  && (!oneOf || oneNonNullEntry fs)
+
 mutual
 /-- "the value is compatible with the type as per the coercion rules for that type" -/
 def coercible (s : RawSchema) : Lit → TRef → Bool
@@ -63,18 +84,7 @@ def coercible (s : RawSchema) : Lit → TRef → Bool
     match expected false false t with
     | some (.named n) =>
       match s.lookup n with
-      | some (.input fields oneOf) =>
-        let byField := entryCoercible s fs
-        -- every entry names a defined field
-        fs.all (fun e => fields.any (fun fd => fd.name = e.1))
-        -- every defined field: the provided value coerces to its type; an omitted field must have
-        -- a default or be nullable
-        && fields.all (fun fd =>
-            match entryOf byField fd.name with
-            | some ok => ok fd.type
-            | none => fd.default.isSome || fd.legacyDefault || !fd.type.isNonNull)
-        -- OneOf: exactly one entry, and it is not null
-        && (!oneOf || (match fs with | [e] => !litIsNull e.2 | _ => false))
+      | some (.input fields oneOf) => objectCoerces fields oneOf fs (entryCoercible s fs)
       | some (.scalar k) => scalarCoerces k (.obj [])
       | _ => false
     | _ => false
@@ -149,16 +159,20 @@ def validImplementationFieldType (s : RawSchema) : TRef → TRef → Bool
   | .named a, .named b => isSubType s a b
   | _, _ => false
 
+/-- "field must include an argument of the same name for every argument defined in
+implementedField; that argument must accept the same type (invariant)" -/
+def hasSameArg (fArgs : List InputValue) (ia : InputValue) : Bool :=
+  match fArgs.find? (fun a => a.name = ia.name) with
+  | some a => a.type = ia.type
+  | none => false
+
 /-- IsValidImplementation(type, implementedType), the fields part, for one interface field -/
 def implementsField (s : RawSchema) (tFields : List Field) (ifld : Field) : Bool :=
   match tFields.find? (fun f => f.name = ifld.name) with
   | none => false
   | some f =>
     -- same arguments, same (invariant) types
-    ifld.args.all (fun ia =>
-      match f.args.find? (fun a => a.name = ia.name) with
-      | some a => a.type = ia.type
-      | none => false)
+    ifld.args.all (hasSameArg f.args)
     -- additional arguments are not required
     && f.args.all (fun a => ifld.args.any (fun ia => ia.name = a.name) || !required a)
     -- covariant return type
